@@ -304,6 +304,13 @@ impl World {
     }
 
     fn wait_for(&mut self, tid: usize) -> Ev {
+        // spin briefly (the running thread usually reaches its next point within microseconds)
+        for _ in 0..20_000 {
+            if let Ok((t, ev)) = self.ev_rx.try_recv() {
+                return if t == tid { ev } else { Ev::Done(format!("SCHEDULER-ERROR event from t{} {:?}", t, ev)) };
+            }
+            std::hint::spin_loop();
+        }
         match self.ev_rx.recv_timeout(Duration::from_secs(20)) {
             Ok((t, ev)) if t == tid => ev,
             Ok((t, ev)) => Ev::Done(format!("SCHEDULER-ERROR event from t{} {:?}", t, ev)),
@@ -339,6 +346,26 @@ impl World {
         self.threads.push(ThreadRec { go: go_tx, join: Some(join), state: Ev::At("?"), msg: msg.clone() });
         let ev = self.wait_for(tid);
         self.threads[tid].state = ev;
+        tid
+    }
+
+    /// a sequential call, executed on the controller thread itself (the hook ignores threads without
+    /// an id): nothing else can move in between
+    fn call_inline(&mut self, msg: &Msg) -> usize {
+        let tid = self.threads.len();
+        let (go_tx, _go_rx) = channel();
+        let _guard = self.handle.enter();
+        let out = match msg.to_meta() {
+            None => "INVALID-CLUSTER-NAME".to_string(),
+            Some(meta) => {
+                let mgr = self.mgr.clone();
+                match catch_unwind(AssertUnwindSafe(|| mgr.update_replicators(meta, ANNOUNCE_HOST.to_string()))) {
+                    Ok(r) => reply_text(&r),
+                    Err(_) => "PANIC".to_string(),
+                }
+            }
+        };
+        self.threads.push(ThreadRec { go: go_tx, join: None, state: Ev::Done(out), msg: msg.clone() });
         tid
     }
 
@@ -461,12 +488,7 @@ impl Runner {
             self.end_episode(c);
         }
         let op = format!("call {}", m.to_op());
-        let tid = c.w.spawn(m);
-        let mut guard = 0;
-        while matches!(c.w.threads[tid].state, Ev::At(_)) && guard < 8 {
-            c.w.step(tid);
-            guard += 1;
-        }
+        let tid = c.w.call_inline(m);
         let obs = c.w.observe(tid);
         self.s.op(&op, &obs);
         c.ops.push(op);
@@ -478,6 +500,7 @@ impl Runner {
             Ev::At(p) => format!("STUCK at {}", p),
         };
         let roles = render_installed(&c.w.mgr);
+        let epoch_before = c.exp_epoch;
         let expect = if !m.hosts_ok() {
             "ERR_NOT_MY_META"
         } else if m.force || m.epoch > c.exp_epoch {
@@ -496,8 +519,8 @@ impl Runner {
         if reply != expect {
             let finding = if c.tainted && expect == "OK" && reply == "OLD_EPOCH" && !m.force { "F05a" } else { "" };
             let what = format!(
-                "sequential SETREPL epoch {} (force={}) answered `{}`, the property prescribes `{}` (installed epoch {})",
-                m.epoch, m.force, reply, expect, c.exp_epoch
+                "sequential SETREPL epoch {} (force={}) answered `{}`, the property prescribes `{}` (epoch {} was installed)",
+                m.epoch, m.force, reply, expect, epoch_before
             );
             // the property's state machine has advanced; the implementation did not: resynchronise the
             // oracle on what is observably installed so that one defect is reported once
